@@ -22,7 +22,7 @@ SPEC = {
     'level': 'exploration',
     'rule': ('scripts of register / reserve / release / add-capacity operations at random grid times on 1-3 '
              'resources with 1-8 waiting requests, several operations per instant at priorities above and below '
-             'the availability check, callbacks that reserve (making later waiters infeasible mid-pass), release, '
+             'the availability check, a third of the scripts split into two runs with operations issued between the runs, callbacks that reserve (making later waiters infeasible mid-pass), release, '
              'or register again; run on the real Environment + ResourceManager under 4 tie-break policies; every '
              'callback invocation and every end of a check pass is judged against the in-order scan rule, every '
              'clock advance against "no feasible request is still waiting"; a case is one script; non-trivial = '
@@ -225,7 +225,16 @@ class Run:
             for t, prio, op in self.case['script']:
                 self.env.schedule_event(t, -2, self.op_action(tuple(op)), prio)
             try:
-                self.env.run(self.case['horizon'])
+                segs = self.case.get('segments') or [self.case['horizon']]
+                for k, d in enumerate(segs):
+                    self.env.run(d)
+                    # operations issued by ordinary code BETWEEN two runs (not from an event): the availability
+                    # check they schedule is pending when the next run starts
+                    if k + 1 < len(segs):
+                        self.check_leftovers(f'end of run {k + 1}')
+                        for op in self.case.get('between', []):
+                            self.do(tuple(op))
+                            self.sh.count('operations_between_runs')
             except Exception as e:
                 import traceback
                 self.fail('crash', f'{type(e).__name__}: {e} {traceback.format_exc()[-800:]}')
@@ -239,6 +248,10 @@ def gen_case(rng, tie):
     names = sorted(resources)
     horizon = 12.0
     script = []
+
+    def req():
+        k = 1 if len(names) == 1 or rng.random() < 0.6 else 2
+        return [[r, rng.choice([1, 1, 1, 2, 0.5, 3, 0])] for r in rng.sample(names, k)]
     n = rng.randint(6, 40)
     t = 0.0
     for _ in range(n):
@@ -247,9 +260,6 @@ def gen_case(rng, tie):
         prio = rng.choice(PRIOS)
         x = rng.random()
 
-        def req():
-            k = 1 if len(names) == 1 or rng.random() < 0.6 else 2
-            return [[r, rng.choice([1, 1, 1, 2, 0.5, 3, 0])] for r in rng.sample(names, k)]
         if x < 0.45:
             op = ['register', req(), rng.choice(['none', 'reserve', 'reserve', 'reserve_release_later',
                                                  'release_other', 'register_again'])]
@@ -260,8 +270,22 @@ def gen_case(rng, tie):
         else:
             op = ['add', rng.choice(names), rng.choice([1, 1, 2, -1, -1, 0.5, 3])]
         script.append([t, prio, op])
-    return {'engine': 'waiters', 'resources': resources, 'script': script, 'horizon': horizon, 'tie': tie,
+    case = {'engine': 'waiters', 'resources': resources, 'script': script, 'horizon': horizon, 'tie': tie,
             'tie_seed': rng.randrange(1 << 30)}
+    if rng.random() < 0.35:
+        a = rng.randrange(1, int(horizon * 4)) / 4.0
+        case['segments'] = [a, horizon - a]
+        between = []
+        for _ in range(rng.randint(1, 3)):
+            x = rng.random()
+            if x < 0.4:
+                between.append(['release', rng.randrange(4)])
+            elif x < 0.75:
+                between.append(['add', rng.choice(names), rng.choice([1, 2, 3])])
+            else:
+                between.append(['register', req(), rng.choice(['none', 'reserve'])])
+        case['between'] = between
+    return case
 
 
 def run_case(sh, case):
